@@ -20,6 +20,8 @@ def run(ctx):
     S.deliver_guard(ctx, L)
     ctx.rule("R-BAM-FRESH", "a new broadcast announcement never inherits the data of an unfinished one (no mixed message)", floor=1)
     S.bam_fresh(ctx, L)
+    ctx.rule("R-RTS-ACCEPT", "an RTS is refused only when its own receive key is occupied", floor=1)
+    S.rts_accept(ctx, L)
     ctx.rule("R-REFRESH", "each appended, non-completing data packet re-arms the receive deadline", floor=2)
     S.refresh(ctx, L)
     ctx.rule("R-ANNOUNCED-PGN", "RTS/BAM and the send session carry data page | PF | (PS or 0) of the arguments", floor=4)
@@ -31,6 +33,9 @@ def run(ctx):
     T.refuse(ctx, L)
     ctx.rule("R-DISPATCH", "notify routes FD.TP.CM/FD.TP.DT by SAE PGN; every control type has a branch", floor=8)
     T.dispatch(ctx, L)
+    ctx.rule("R-LAYOUT", "FD TP.CM / TP.DT builders and parsers agree bit by bit with the SAE layout (24-bit segment numbers, sizes)", floor=20)
+    _LY.builders(ctx, L)
+    _LY.parsers(ctx, L)
     ctx.rule("R-POOL-PAIR", "session numbers are taken on send and returned on every deletion of the send session", floor=10)
     TM.pool_pair(ctx, L)
     ctx.rule("R-POOL-OWNER", "session numbers are released only where an outbound session is deleted", floor=5)
